@@ -92,7 +92,7 @@ func ratText(q *big.Rat) string {
 }
 
 // text with exactly the parentheses the precedence ladder needs (mirrors Model.ExprSyntax.pr)
-func render(p int, e *ex) string {
+func c06Render(p int, e *ex) string {
 	var body string
 	switch e.k {
 	case "num":
@@ -102,27 +102,27 @@ func render(p int, e *ex) string {
 	case "col":
 		body = e.s
 	case "neg":
-		body = "-" + render(6, e.l)
+		body = "-" + c06Render(6, e.l)
 	case "or":
-		body = render(0, e.l) + " OR " + render(1, e.r)
+		body = c06Render(0, e.l) + " OR " + c06Render(1, e.r)
 	case "and":
-		body = render(1, e.l) + " AND " + render(2, e.r)
+		body = c06Render(1, e.l) + " AND " + c06Render(2, e.r)
 	case "cmp":
-		body = render(3, e.l) + " " + cmpText[e.op] + " " + render(3, e.r)
+		body = c06Render(3, e.l) + " " + cmpText[e.op] + " " + c06Render(3, e.r)
 	case "bin":
 		if e.op == "pow" {
-			body = render(6, e.l) + " ^ " + render(5, e.r)
+			body = c06Render(6, e.l) + " ^ " + c06Render(5, e.r)
 		} else {
-			body = render(level(e), e.l) + " " + binText[e.op] + " " + render(level(e)+1, e.r)
+			body = c06Render(level(e), e.l) + " " + binText[e.op] + " " + c06Render(level(e)+1, e.r)
 		}
 	case "call":
 		var as []string
 		for _, a := range e.args {
-			as = append(as, render(0, a))
+			as = append(as, c06Render(0, a))
 		}
 		body = e.s + "(" + strings.Join(as, ", ") + ")"
 	case "par":
-		body = "(" + render(0, e.l) + ")"
+		body = "(" + c06Render(0, e.l) + ")"
 	}
 	if p <= level(e) {
 		return body
@@ -132,17 +132,17 @@ func render(p int, e *ex) string {
 
 func renderTop(t *etop) string {
 	if !t.isCase {
-		return render(0, t.e)
+		return c06Render(0, t.e)
 	}
 	s := "CASE"
 	if t.v != nil {
-		s += " " + render(0, t.v)
+		s += " " + c06Render(0, t.v)
 	}
 	for _, w := range t.whens {
-		s += " WHEN " + render(0, w[0]) + " THEN " + render(0, w[1])
+		s += " WHEN " + c06Render(0, w[0]) + " THEN " + c06Render(0, w[1])
 	}
 	if t.els != nil {
-		s += " ELSE " + render(0, t.els)
+		s += " ELSE " + c06Render(0, t.els)
 	}
 	return s + " END"
 }
@@ -150,7 +150,7 @@ func renderTop(t *etop) string {
 func ratEnc(q *big.Rat) string { return q.Num().String() + "/" + q.Denom().String() }
 
 // prefix encoding read by ocaml/c06.ml
-func enc(e *ex) string {
+func c06_enc(e *ex) string {
 	switch e.k {
 	case "num":
 		return "n " + ratEnc(e.q)
@@ -159,19 +159,19 @@ func enc(e *ex) string {
 	case "col":
 		return "c " + hx(e.s)
 	case "neg":
-		return "neg " + enc(e.l)
+		return "neg " + c06_enc(e.l)
 	case "or", "and":
-		return e.k + " " + enc(e.l) + " " + enc(e.r)
+		return e.k + " " + c06_enc(e.l) + " " + c06_enc(e.r)
 	case "cmp":
-		return "p " + e.op + " " + enc(e.l) + " " + enc(e.r)
+		return "p " + e.op + " " + c06_enc(e.l) + " " + c06_enc(e.r)
 	case "bin":
-		return "b " + e.op + " " + enc(e.l) + " " + enc(e.r)
+		return "b " + e.op + " " + c06_enc(e.l) + " " + c06_enc(e.r)
 	case "par":
-		return "par " + enc(e.l)
+		return "par " + c06_enc(e.l)
 	case "call":
 		s := fmt.Sprintf("f %s %d", hx(e.s), len(e.args))
 		for _, a := range e.args {
-			s += " " + enc(a)
+			s += " " + c06_enc(a)
 		}
 		return s
 	}
@@ -179,20 +179,20 @@ func enc(e *ex) string {
 }
 func encTop(t *etop) string {
 	if !t.isCase {
-		return "E " + enc(t.e)
+		return "E " + c06_enc(t.e)
 	}
 	s := "K"
 	if t.v != nil {
-		s += " v1 " + enc(t.v)
+		s += " v1 " + c06_enc(t.v)
 	} else {
 		s += " v0"
 	}
 	s += fmt.Sprintf(" %d", len(t.whens))
 	for _, w := range t.whens {
-		s += " " + enc(w[0]) + " " + enc(w[1])
+		s += " " + c06_enc(w[0]) + " " + c06_enc(w[1])
 	}
 	if t.els != nil {
-		s += " e1 " + enc(t.els)
+		s += " e1 " + c06_enc(t.els)
 	} else {
 		s += " e0"
 	}
@@ -290,7 +290,7 @@ func (r rowT) goMap() map[string]any {
 	}
 	return m
 }
-func (r rowT) enc() string {
+func (r rowT) c06_enc() string {
 	keys := make([]string, 0, len(r))
 	for k := range r {
 		keys = append(keys, k)
@@ -320,7 +320,7 @@ func (r rowT) enc() string {
 
 var intPool = []int64{0, 1, 2, 3, 4, 5, -2, 7, 10}
 var fltPool = []float64{0.5, 2.5, -1.5, 4, 0.25, 3, 0, 10.75}
-var strPool = []string{"ab", "", "b", "abc", "Ab", "x1", "zz", "true"}
+var c06StrPool = []string{"ab", "", "b", "abc", "Ab", "x1", "zz", "true"}
 var numStrPool = []string{"12", "2.5", "-3", "007"}
 
 func genCell(r *RNG, numeric, text bool) (cell, bool) {
@@ -341,7 +341,7 @@ func genCell(r *RNG, numeric, text bool) (cell, bool) {
 		if r.Intn(8) == 0 {
 			return cell{kind: "s", s: numStrPool[r.Intn(len(numStrPool))]}, true
 		}
-		return cell{kind: "s", s: strPool[r.Intn(len(strPool))]}, true
+		return cell{kind: "s", s: c06StrPool[r.Intn(len(c06StrPool))]}, true
 	}
 	return cell{kind: "b", b: r.Bool()}, true
 }
@@ -456,7 +456,7 @@ func (g *gen) strE(d int) *ex {
 	if d <= 0 || !g.funcs || r.Intn(3) != 0 {
 		switch r.Intn(4) {
 		case 0:
-			return str(strPool[r.Intn(len(strPool))])
+			return str(c06StrPool[r.Intn(len(c06StrPool))])
 		case 1:
 			return col("t")
 		default:
@@ -544,7 +544,7 @@ func (g *gen) top(d int) *etop {
 		for i := 0; i < n; i++ {
 			var w *ex
 			if onStr {
-				w = str(strPool[r.Intn(len(strPool))])
+				w = str(c06StrPool[r.Intn(len(c06StrPool))])
 			} else {
 				w = g.lit()
 			}
@@ -801,11 +801,11 @@ func c06Expr(o *Out, r *RNG, t *etop, wild bool) {
 			obs3 = evalObs(e2, copyMap(m))
 		}
 		if obs1 != obs2 || obs1 != obs3 {
-			o.Line("C06 HD %s # %s # %s | %s | %s", hx(text), row.enc(), obs1, obs2, obs3)
+			o.Line("C06 HD %s # %s # %s | %s | %s", hx(text), row.c06_enc(), obs1, obs2, obs3)
 			o.Count("history/DEPENDENT")
 			continue
 		}
-		o.Line("C06 V %s # %s # %s # %s", hx(text), encTop(t), row.enc(), obs1)
+		o.Line("C06 V %s # %s # %s # %s", hx(text), encTop(t), row.c06_enc(), obs1)
 		o.Count("eval/rows")
 	}
 }
